@@ -116,6 +116,22 @@ func main() {
 	if prop == "selftest" {
 		os.Exit(selftest(seed, *seeds, *par))
 	}
+	if prop == "instrumented-tests" {
+		b, err := buildSimnode("itests")
+		defer b.cleanup()
+		if err != nil {
+			b.cleanup()
+			fatal2("%v", err)
+		}
+		ok, out := instrumentedTests(b)
+		fmt.Println(out)
+		b.cleanup()
+		if !ok {
+			fatal2("the repository's own tests do not pass on the instrumented copy: the instrumenter changed behaviour")
+		}
+		fmt.Println("OK the repository's test suite passes on the instrumented copy")
+		os.Exit(0)
+	}
 	if prop != "C11" && prop != "C13" && prop != "C18" {
 		fatal2("unknown property %q (claimed: C11, C13, C18)", prop)
 	}
@@ -157,10 +173,42 @@ func main() {
 		if *budget > 0 {
 			cfg.budget = time.Duration(*budget) * time.Second
 		}
+		if *tier == "thorough" && *runs == 0 {
+			// self-check of the rewriter: the repository's own tests on the instrumented copy
+			if ok, out := instrumentedTests(b); !ok {
+				fmt.Println(out)
+				b.cleanup()
+				fatal2("the repository's own tests do not pass on the instrumented copy: the instrumenter changed behaviour")
+			}
+			fmt.Println("instrumenter self-check: the repository's test suite passes on the instrumented copy")
+		}
 		code = check(b, prop, *tier, seed, cfg, *par, !*noEvidence)
 	}
 	b.cleanup()
 	os.Exit(code)
+}
+
+// instrumentedTests runs the repository's own test suite on the instrumented
+// copy (yield points are inert outside a simulation): the rewriter must not
+// change behaviour.
+func instrumentedTests(b *build) (bool, string) {
+	out, err := run(b.src, goEnv(), "go", "test", "-vet=off", "-count=1", "./...")
+	var keep []string
+	nok := 0
+	for _, l := range strings.Split(out, "\n") {
+		if strings.HasPrefix(l, "ok ") {
+			nok++
+		}
+		if strings.HasPrefix(l, "ok ") || strings.HasPrefix(l, "? ") || strings.TrimSpace(l) == "" {
+			continue
+		}
+		keep = append(keep, l)
+	}
+	if len(keep) > 40 {
+		keep = keep[:40]
+	}
+	keep = append(keep, fmt.Sprintf("%d packages with tests report ok", nok))
+	return err == nil && nok > 0, strings.Join(keep, "\n")
 }
 
 // applyBuildLimits switches off what this tree's build could not provide.
